@@ -201,6 +201,14 @@ def copy_case(acc, rnd, tier):
     host.add_state(BasicState('IDLE'), 'HOST')
     host.add_state(BasicState('SLOT'), 'HOST')
     host.add_transition(Transition('IDLE', 'SLOT', event='enter'))
+    # the host has its own transitions on the state that is going to be replaced (internal, self-loop, leaving): they stay, once each
+    host_own = ['host:enter']
+    if rnd.random() < 0.6:
+        for ev, tgt in (('hostint', None), ('hostloop', 'SLOT'), ('leave', 'IDLE')):
+            if rnd.random() < 0.7:
+                host.add_transition(Transition('SLOT', tgt, event=ev))
+                host_own.append('host:%s' % ev)
+        acc.count('hosts_with_own_transitions_on_the_replaced_state')
     f = lambda n: 'G' + n       # noqa: E731   order-preserving among the guest's states
     wit = dict(chart=ch, partial=partial)
     order = {n: i for i, n in enumerate(ch['order'])}
@@ -227,8 +235,10 @@ def copy_case(acc, rnd, tier):
     acc.count('donor_unchanged_checks')
     by_action = {(build.Coder().action(ch, t) or '').strip(): t['id'] for t in ch['transitions']}
     tmap_h = {}
+    labels = []         # one per registered transition (the same object registered twice counts twice)
     for t in host.transitions:
         a = (t.action or '').strip()
+        labels.append(by_action.get(a, 'host:%s' % t.event))
         if a in by_action:
             if by_action[a] in tmap_h.values():
                 acc.violation('C17:copy-duplicated-transition', 'transition %s of the guest appears more than once in the host'
@@ -237,9 +247,9 @@ def copy_case(acc, rnd, tier):
             tmap_h[id(t)] = by_action[a]
         else:
             tmap_h[id(t)] = 'host:%s' % t.event
-    if sorted(tmap_h.values()) != sorted([t['id'] for t in ch['transitions']] + ['host:enter']):
+    if sorted(labels) != sorted([t['id'] for t in ch['transitions']] + host_own):
         acc.violation('C17:copy-lost-transition', 'host has transitions %r, guest has %r' %
-                      (sorted(tmap_h.values()), sorted(t['id'] for t in ch['transitions'])), wit)
+                      (sorted(labels), sorted([t['id'] for t in ch['transitions']] + host_own)), wit)
         return
     back = {f(n): n for n in ch['order']}
     back['SLOT'] = groot
